@@ -107,7 +107,30 @@ func (x *X) assignedVars(f *Frame, nodes []ast.Node, outerEnd token.Pos) []types
 	return out
 }
 
+// loop runs the ghost statements anchored on the loop (by ordinal) around the loop itself.
 func (x *X) loop(f *Frame, st *State, L *loopDesc) *State {
+	anchor := fmt.Sprintf("loop#%d", L.ord)
+	if f.spec != nil && f.top {
+		x.runGhostNames(f, st, "before", anchor, L.body.Lbrace+1, L)
+	}
+	out := x.loopCore(f, st, L)
+	if out != nil && f.spec != nil && f.top {
+		x.runGhostNames(f, out, "after", anchor, L.body.Lbrace+1, L)
+	}
+	return out
+}
+
+func (x *X) runGhostNames(f *Frame, st *State, where, anchor string, pos token.Pos, L *loopDesc) {
+	for _, g := range f.spec.Ghost {
+		if g.Where != where || g.Anchor != anchor {
+			continue
+		}
+		g.used = true
+		x.execGhost(f, st, g, pos)
+	}
+}
+
+func (x *X) loopCore(f *Frame, st *State, L *loopDesc) *State {
 	c := x.c
 	spec := f.spec
 	var invs []Clause
@@ -127,6 +150,15 @@ func (x *X) loop(f *Frame, st *State, L *loopDesc) *State {
 	}
 	mvars := x.assignedVars(f, nodes, L.pos)
 	mvars = append(mvars, L.extra...)
+	// ghost variables may be updated by `set` statements anywhere in the body: havoc them all
+	var gnames []string
+	for n := range f.ghostVars {
+		gnames = append(gnames, n)
+	}
+	sort.Strings(gnames)
+	for _, n := range gnames {
+		mvars = append(mvars, f.ghostVars[n])
+	}
 
 	havocVars := func(s *State) {
 		for _, v := range mvars {
@@ -240,7 +272,20 @@ func (x *X) loop(f *Frame, st *State, L *loopDesc) *State {
 	}
 
 	// --- loop head: havoc ---------------------------------------------------------------
+	freshOnly := false
+	if spec != nil && f.top {
+		for _, m := range spec.LoopMod[L.ord] {
+			if m == "fresh" {
+				freshOnly = true
+			}
+		}
+	}
+	alloc0 := c.heap0(st, allocName, SRef)
+	var realLog []WriteRec
 	head := st.clone()
+	if freshOnly {
+		head.wlog = &realLog
+	}
 	havocVars(head)
 	var hnames []string
 	for h := range mods {
@@ -258,7 +303,15 @@ func (x *X) loop(f *Frame, st *State, L *loopDesc) *State {
 			continue
 		}
 		if m.whole || !srt.IsArr() || !strings.HasPrefix(string(srt), "(Array (_ BitVec 64)") {
-			head.heaps[h] = c.fresh("lh", srt)
+			nh := c.fresh("lh", srt)
+			if freshOnly && srt.IsArr() && strings.HasPrefix(string(srt), "(Array (_ BitVec 64)") &&
+				(strings.HasPrefix(h, "H!") || strings.HasPrefix(h, "E!") || strings.HasPrefix(h, "M!")) {
+				// `loop N modifies fresh`: only cells allocated since function entry are written
+				// (checked below for every write), so older cells keep their value
+				r := BoundVar("fr_q", SRef)
+				c.assume(st.pc, Quant("forall", []*Term{r}, Implies(bvcmp("bvult", r, alloc0), Eq(Select(nh, r), Select(cur, r))), []*Term{Select(nh, r)}))
+			}
+			head.heaps[h] = nh
 			continue
 		}
 		_, vs := srt.ArrParts()
@@ -355,6 +408,34 @@ func (x *X) loop(f *Frame, st *State, L *loopDesc) *State {
 		}
 	}
 	exits = append(exits, tgt.breaks...)
+	if freshOnly {
+		seen := map[string]bool{}
+		for _, w := range realLog {
+			if !(strings.HasPrefix(w.Heap, "H!") || strings.HasPrefix(w.Heap, "E!") || strings.HasPrefix(w.Heap, "M!")) {
+				continue
+			}
+			goal := TFalse
+			key := w.Heap + "@whole"
+			if w.Ref != nil {
+				goal = Not(bvcmp("bvult", w.Ref, alloc0))
+				key = w.Heap + "@" + w.Ref.String() + "@" + w.PC.String()
+			}
+			if seen[key] {
+				continue
+			}
+			seen[key] = true
+			pc := w.PC
+			if pc == nil {
+				pc = head.pc
+			}
+			c.obligeNamed(fmt.Sprintf("frame-write#L%d", L.ord), "frame", pc, goal, x.pos(L.pos), "loop writes only memory allocated since function entry: "+w.Heap)
+		}
+		for _, e := range exits {
+			if e != nil {
+				e.wlog = st.wlog
+			}
+		}
+	}
 	return c.mergeAll(exits)
 }
 
